@@ -232,7 +232,11 @@ def run(run_, pkg, tier):
         if run_.wants(key):
             tasks.append((key, "C03-a-custom-edge-jacobian", finite_difference_obligation(vt), "%s:%d" % (jfn._gs_module, jfn.lineno)))
     results = run_tasks(pkg, tasks)
+    from ..algebra import across_thresholds
+    from ..assembly import directed_assembly_tasks
+    results, xt, xr = across_thresholds(run_, pkg, tasks, results, directed_assembly_tasks("C03-bc/assembly", "C03-bc-assembly", "%s:%d" % (fn._gs_module, fn.lineno)))
     record(run_, tasks, results)
+    record(run_, xt, xr)
     # the assembly tests the number of edges / vertices against constants (batching, thresholds): aim a scenario at them
     from ..algebra import size_constants
     from ..assembly import Scenario
